@@ -5,10 +5,10 @@
 (* (kbds = the --all-keyboards path, devs = the --dev-file path with its      *)
 (* is_keyboard flag) and what the two real exclusion functions flagged.       *)
 (* SINGLES = the same for every single entry kind alone.                      *)
-(*   locality:  the result for a list is the concatenation of the results for *)
-(*              its entries taken alone (so it depends on the entry only);    *)
+(*   locality:  the result for a list is the union (as a bag) of the results   *)
+(*              for its entries taken alone (it depends on the entry only);    *)
 (*   agreement: the keyboards of the first path are exactly the devices the   *)
-(*              second path flags as keyboards, in order;                     *)
+(*              second path flags as keyboards (as bags: order is not stated); *)
 (*   exclusion: a device is flagged on either path exactly when its name       *)
 (*              matches one of the patterns (glob semantics of DevList).      *)
 (* Classification vs DevList!Keyboardish is reported as DRIFT only.          *)
@@ -19,13 +19,18 @@ Res == ndJsonDeserialize(IOEnv.RESULTS)
 Single == ndJsonDeserialize(IOEnv.SINGLES)      \* Single[k] = result for entry kind k alone
 
 Strip(d) == [sysfs |-> d.sysfs, name |-> d.name]
+\* The statement says which devices are selected, not in which order they are reported: results are compared as bags
+\* (a change that sorts the keyboards by name breaks nothing that C16 says).
+SameBag(s, t) == /\ Len(s) = Len(t)
+                 /\ \A x \in {s[i]: i \in 1..Len(s)} \cup {t[i]: i \in 1..Len(t)}:
+                       Cardinality({i \in 1..Len(s): s[i] = x}) = Cardinality({i \in 1..Len(t): t[i] = x})
 Verdict(r) ==
   IF r.o # "ok" THEN {"C16-extractor-panics"}
   ELSE LET expDevs == FlattenSeq([i \in 1..Len(r.entries) |-> Single[r.entries[i]].devs])
            expKbds == FlattenSeq([i \in 1..Len(r.entries) |-> Single[r.entries[i]].kbds])
            kOfDevs == SelectSeq(r.devs, LAMBDA d: d.kbd)
-       IN (IF r.devs # expDevs \/ r.kbds # expKbds THEN {"C16-not-local"} ELSE {})
-          \cup (IF r.kbds # [i \in 1..Len(kOfDevs) |-> Strip(kOfDevs[i])] THEN {"C16-paths-disagree"} ELSE {})
+       IN (IF ~SameBag(r.devs, expDevs) \/ ~SameBag(r.kbds, expKbds) THEN {"C16-not-local"} ELSE {})
+          \cup (IF ~SameBag(r.kbds, [i \in 1..Len(kOfDevs) |-> Strip(kOfDevs[i])]) THEN {"C16-paths-disagree"} ELSE {})
           \cup (IF \E i \in 1..Len(r.entries): LET e == Kinds[r.entries[i]]  s == Single[r.entries[i]] IN
                       \/ (e.kind \in SureKeyboard /\ (Len(s.devs) # 1 \/ ~s.devs[1].kbd \/ Len(s.kbds) # 1))
                       \/ (e.kind \in SureNotKeyboard /\ ((Len(s.devs) >= 1 /\ s.devs[1].kbd) \/ s.kbds # <<>>))
